@@ -7,4 +7,6 @@ require (
 	gopkg.in/yaml.v3 v3.0.1
 )
 
+require github.com/agnivade/levenshtein v1.2.1 // indirect
+
 replace github.com/vektah/gqlparser/v2 => /repo
